@@ -3263,6 +3263,17 @@ impl Block {
 
                     return false;
                 }
+
+                // the hash compared above leaves the signature field out. the producer signs the fee
+                // transaction with the key it signs the block with: anything else in that field would be a
+                // second content under the same block hash
+                if !verify_signature(&hash2, &fee_transaction_in_block.signature, &self.creator) {
+                    error!(
+                        "ERROR: block {} fee transaction is not signed by the creator of the block",
+                        self.id
+                    );
+                    return false;
+                }
             }
         } else if let Some(fee_transaction_expected) = &cv.fee_transaction {
             // the payouts the golden ticket of this block triggers are made by its fee transaction: a
